@@ -1,3 +1,4 @@
+\* thorough: <= 4 events (MC_MsgStore_stamps.cfg: <= 3)
 \* stamps need not increase: a packet may carry the same millisecond as the one before it (two frames of one
 \* serial read) or an earlier one (the clock was put back); "most recently received" is decided by arrival.
 \* The library as it is since 2f05aca (StaleFirstRead = FALSE); which of two codes of one attribute is the most
@@ -16,7 +17,7 @@ CONSTANTS
   InFlight = FALSE
   StampSteps <- StepsAnyDef
   CrossCodeOpen = TRUE
-  MaxEvents = 3
+  MaxEvents = 4
   MaxMsgs = 3
 CONSTRAINT Bound
 VIEW View
